@@ -27,6 +27,22 @@ C = {
    text="Lean theorems over a model of ParseURLData/parseQuery/QueryParams/ParseAnnounce/ParseScrape/SanitizeAnnounce/SanitizeScrape, for every URI, header, remote address and option set: the parser is a total function (reject with a client error, or accept); accepted announces have port != 0, numwant = default when absent and <= max when supplied, IP length matching its family, 20-byte ids; every accepted field equals the last percent-decoded value under its key (info_hash: the single one); the result depends only on the infohash list and the last value of each consulted key (hence order/unrelated-parameter independence); unescape inverts every per-byte escaping choice; scrapes carry the first min(k,max) infohashes in order. Tied by differential runs of the real parser on rendered, boundary, address-grid and raw URIs.",
    note="trusted: Lean kernel + 3 standard axioms; harness; url.QueryUnescape/strconv.ParseUint as modelled; strings.ToLower on non-ASCII keys, net.ParseIP, net.SplitHostPort are external (results supplied to the model by the harness, computed independently of the code under test); net/http request syntax outside the model",
    tech="Lean 4 proof (inversion of the monadic parser, congruence on consulted keys, escaping round trip) + differential correspondence check against the Go parser"),
+ "C07": dict(
+   text="Lean theorems over a model of frontend/udp parser.go + handleRequest, with client-side BEP 15/41 packet builders as specification: parse(build fields ++ options) returns exactly those fields for both announce actions (event via the code table over the whole 32-bit field, numwant/port after the IP field, opentracker IPv6 layout), URL data is reassembled from any URLData/NOP/EndOfOptions segmentation, scrapes are read back in order with repeats; every truncated packet, event code >= 4, unknown option type, overrunning URLData length, scrape body not a positive multiple of 20, short header, connect without magic and unknown action is rejected/silent as the property states. The model is total. Tied by differential runs of the real handleRequest (spy logic) on built, boundary-length, mutated and garbage packets.",
+   note="trusted: Lean kernel + 3 standard axioms; harness + overlay shims; HMAC uninterpreted; encoding/binary and buffer pooling as modelled; the URL-data query parser is the C06 model",
+   tech="Lean 4 proof (round trip against a client-side builder spec; slicing lemmas) + differential correspondence check against the Go frontend"),
+ "C09": dict(
+   text="Lean theorems with a BEP 15 client decoder as specification: decoding what WriteAnnounce / WriteScrape / WriteError write yields exactly (action 1|4, echoed transaction ID, interval mod 2^32, leechers, seeders, the requester-family peers as 6/18-byte entries in order), (2, tx, the triples in response order), (3, tx, message) with a client error's own message or one fixed message for anything else (identical datagrams for all internal errors); every datagram handleRequest sends echoes request bytes 12..16. Tied by differential runs capturing the real datagrams, internal errors carrying a secret token that must not appear.",
+   note="trusted: Lean kernel + 3 standard axioms; harness + overlay shims; the decoder in Props/C09.lean is the reading of BEP 15; ordering of scrape entries by request order is the response hook's job (C01/C12 model)",
+   tech="Lean 4 proof (decode-of-write against a client decoder spec; non-interference of internal errors) + differential correspondence check"),
+ "C10": dict(
+   text="Lean theorems (HMAC uninterpreted, for every 8-byte ID, address, key, time and skew): Validate holds iff the ID is inside the two-minute/skew window and carries the tag HMAC(key, timestamp||source IP); hence an accepted ID is exactly the one this key issues for that address and second; every issued ID is accepted from its address throughout its lifetime on any instance with the key; a non-connect datagram with an invalid ID yields one error datagram and no logic call; any logic call implies validation succeeded; connect answers the issued ID. Tied by differential runs over window edges, all 64 bit flips, other address/key, all action codes.",
+   note="trusted: Lean kernel + 3 standard axioms; unforgeability of truncated HMAC-SHA256 is a cryptographic assumption (the theorem says *which* tag is required, not that it cannot be guessed); timestamps are uint32 (before 2106); cached clock pinned by shim",
+   tech="Lean 4 proof (exact characterisation + gating of the request handler) + differential correspondence check"),
+ "C11": dict(
+   text="Lean theorems: with spoofing off the HTTP address is the proxy-header/remote address for all ip/ipv4/ipv6 parameters, and two UDP announces differing only in the packet IP field are handled identically; with spoofing on HTTP uses the first present of ip, ipv4, ipv6 (unparsable => rejected, absent => source) and UDP uses a non-zero field as given in its own family (4 bytes action 1, 16 bytes action 4) and the source for a zero field; the registered address is that address in canonical form. Tied by exhaustive product grids through the real HTTP parser and UDP handler.",
+   note="trusted: Lean kernel + 3 standard axioms; harness + shims; net.ParseIP/SplitHostPort results supplied to the model by the harness; reading R5 of DESIGN §7 (HTTP ip=0.0.0.0 is an explicit address)",
+   tech="Lean 4 proof (non-interference / decision logic, corollaries of the C06 and C07 parser theorems) + differential correspondence check"),
 }
 
 def main():
